@@ -449,8 +449,11 @@ class BuiltinMixin:
         st.pc.append(ls.len(ys.t) == n)
         st.pc.append(canonical_list(ys.t, ls))
         st.pc.append(z3.ForAll([i], z3.Implies(inr(i), z3.And(inr(z3.Select(sig, i)), z3.Select(inv, z3.Select(sig, i)) == i,
-                                                             z3.Select(ls.arr(ys.t), i) == z3.Select(ls.arr(xs.t), z3.Select(sig, i))))))
-        st.pc.append(z3.ForAll([j], z3.Implies(inr(j), z3.And(inr(z3.Select(inv, j)), z3.Select(sig, z3.Select(inv, j)) == j))))
+                                                             z3.Select(ls.arr(ys.t), i) == z3.Select(ls.arr(xs.t), z3.Select(sig, i)))),
+                              patterns=[z3.Select(ls.arr(ys.t), i)]))
+        st.pc.append(z3.ForAll([j], z3.Implies(inr(j), z3.And(inr(z3.Select(inv, j)), z3.Select(sig, z3.Select(inv, j)) == j,
+                                                             z3.Select(ls.arr(ys.t), z3.Select(inv, j)) == z3.Select(ls.arr(xs.t), j))),
+                              patterns=[z3.Select(ls.arr(xs.t), j)]))
 
         def key_of(elem):
             if keyf is None:
